@@ -565,11 +565,21 @@ pub fn run_c09(ctx: &Ctx) -> i32 {
                     s.push_str(&format!("const int {} = 1; ", if rng.chance(1, 2) { format!("m{}", rng.below(n)) } else { rng.pick_str(&names).to_string() }));
                 }
             }
-            let name = if rng.chance(1, 2) { format!("m{k}") } else { rng.pick_str(&names).to_string() };
+            let name = if rng.chance(1, 2) {
+                format!("m{k}")
+            } else if rng.chance(1, 6) {
+                crate::vocab::ident(rng).unwrap_or_else(|| "alpha".to_string())
+            } else {
+                rng.pick_str(&names).to_string()
+            };
             let code = match style {
                 0 => {
                     if rng.chance(1, 2) {
-                        Some(rng.pick_str(&codes).to_string())
+                        if rng.chance(1, 5) {
+                            Some(crate::vocab::number_u32(rng).map(|n| n.to_string()).unwrap_or_else(|| "7".into()))
+                        } else {
+                            Some(rng.pick_str(&codes).to_string())
+                        }
                     } else {
                         None
                     }
